@@ -183,6 +183,23 @@ Proof.
   - split; [intros x Hx; cbn [In] in Hx; unfold zlen; cbn [length]; lia|repeat constructor].
 Qed.
 
+(* "independently of the order of the requested channels": the column of channel ch is the same
+   wherever, and with whatever other channels, ch is requested *)
+Theorem C06_get_features_perm : forall (A : Type) (zero nanc : A) (st : @store A) n_loc stpl ids chans chans',
+  Wf st n_loc stpl ids -> NoDup chans -> (forall c, In c chans -> 0 <= c) ->
+  NoDup chans' -> (forall c, In c chans' -> 0 <= c) ->
+  exists out out', get_features zero nanc st n_loc stpl ids chans = Ok out /\
+                   get_features zero nanc st n_loc stpl ids chans' = Ok out' /\ length out = length out' /\
+    forall p orow orow' j j' ch, nth_error out p = Some orow -> nth_error out' p = Some orow' ->
+      nth_error chans j = Some ch -> nth_error chans' j' = Some ch -> nth_error orow j = nth_error orow' j'.
+Proof. exact (@get_dense_perm). Qed.
+Print Assumptions C06_get_features_perm.
+
+Example C06_get_features_perm_ex :
+  get_features 0 99 ex_store 2 [0; 0; 1; 1; 0; 1; 0; 1] [7; 4] [0; 1; 2; 3] = Ok [[0; 0; 30; 31]; [10; 11; 0; 0]] /\
+  get_features 0 99 ex_store 2 [0; 0; 1; 1; 0; 1; 0; 1] [7; 4] [3; 0; 2] = Ok [[31; 0; 30]; [0; 10; 0]].
+Proof. split; vm_compute; reflexivity. Qed.
+
 (* template features: the requested "channels" are all templates 0 .. n_templates-1 *)
 Theorem C06_template_features : forall (A : Type) (zero nanc : A) (st : @store A) n_loc stpl ids n_templates,
   Wf st n_loc stpl ids ->
@@ -215,6 +232,16 @@ Example C06_subset_store_ex :
   get_features 0 99 (mkstore [[30; 31]; [10; 11]] (Some [[0; 1]; [2; 3]]) (Some [2; 0])) 2 [0; 1; 1] [2; 0] [3; 0; 1] =
   Ok [[31; 0; 0]; [0; 10; 11]].
 Proof. split; vm_compute; reflexivity. Qed.
+
+(* the boolean checker run on the output of get_features / get_template_features implies the statement *)
+Theorem C06_dense_checker_sound : forall (A : Type) (zero : A) (aeqb : A -> A -> bool),
+  (forall a b, aeqb a b = true -> a = b) -> forall (st : @store A) n_loc stpl ids chans out,
+  match st_rows st with Some r => NoDup r | None => True end ->
+  rows_len n_loc (st_data st) ->
+  match st_cols st with Some ct => Forall (fun r => length r = n_loc) ct | None => True end ->
+  dense_spec_b zero aeqb st n_loc stpl ids chans out = true -> Dense_Spec zero st n_loc stpl ids chans out.
+Proof. exact (@dense_spec_b_sound). Qed.
+Print Assumptions C06_dense_checker_sound.
 
 (* ---------- projection onto principal components ---------- *)
 
